@@ -252,3 +252,20 @@ Proof.
   - destruct c1; simpl; eauto.
   - destruct c2; simpl; eauto.
 Qed.
+
+Lemma ns_to_subject_token_ok tk : exists r, ns_to_subject_token tk = Ok r.
+Proof.
+  unfold ns_to_subject_token. destruct (Nat.ltb_spec 1 (String.length tk)) as [Hl|Hl].
+  - destruct (char_at_ok "ToSubject: tk[0]" tk 0) as [c Hc]; [lia|]. rewrite Hc. cbn. eauto.
+  - eauto.
+Qed.
+Lemma ns_to_subject_toks_ok toks : exists n, ns_to_subject_toks toks = Ok n.
+Proof.
+  induction toks as [|tk r IH]; cbn [ns_to_subject_toks]; [eauto|].
+  destruct (ns_to_subject_token_ok tk) as [b Hb]. rewrite Hb. cbn.
+  destruct IH as [n Hn]. rewrite Hn. cbn. eauto.
+Qed.
+Lemma no_panic_to_subject : forall s, exists n, ns_to_subject s = Ok n.
+Proof.
+  intros s. unfold ns_to_subject. destruct (negb (contains "$" s)); [eauto|apply ns_to_subject_toks_ok].
+Qed.
